@@ -490,7 +490,12 @@ func genInstance(r *core.Rand, reuse *inst, allowExcluded bool) *inst {
 		case 20:
 			qs = append(qs, fmt.Sprintf("H%d@%d", id, nn))
 		case 19:
-			qs = append(qs, fmt.Sprintf("P%d@%d", id, qn))
+			if r.Bool() {
+				qs = append(qs, fmt.Sprintf("P%d@%d", id, qn))
+			} else {
+				// deep nodes make the concurrent walks long
+				qs = append(qs, fmt.Sprintf("F%d@%d", id, tips[r.Intn(len(tips))]))
+			}
 		case 18:
 			if heavy < 2 {
 				heavy++
